@@ -447,7 +447,7 @@ class MetaApplication(Application):
         self._main_page_render = self._arf('meta_base.html')
         routes = [('/', self.get_main, self.render_main_page_html),
                   ('/clastic_assets/', META_ASSETS_APP),
-                  ('/json/', self.get_main, render_json)]
+                  ('/json/', self.get_main, self.render_main_json)]
         for peri in self.peripherals:
             routes.extend(peri.get_extra_routes())
         resources = {'_meta_start_time': datetime.datetime.utcnow(),
@@ -471,6 +471,14 @@ class MetaApplication(Application):
                 peri_ctx = {'exc_content': repr(e)}
             full_ctx.setdefault(peri.group_key, {}).update(peri_ctx)
         return full_ctx
+
+    def render_main_json(self, context):
+        # host middlewares also wrap these routes: serialize what
+        # get_main produced, not what a host context processor added
+        keys = set(['page_title', 'script_root'])
+        keys.update([peri.group_key for peri in self.peripherals])
+        return render_json(dict([(k, v) for k, v in context.items()
+                                 if k in keys]))
 
     def render_main_page_html(self, context):
         context['sections'] = []
